@@ -183,7 +183,7 @@ def scan_include(repo: Path):
                 raise Unsupported("the file_insertion_enabled test must raise DirectiveError(level, ...)")
             idx, level, line = i, s.body[0].exc.args[0].value, s.lineno
     if idx is None:
-        return {"index": 10 ** 6, "level": 0, "fs_before": ["<no file_insertion_enabled test>"], "fs_total": 0}
+        return {"index": 999, "level": 0, "fs_before": ["<no file_insertion_enabled test>"], "fs_total": 0}
     fs_before, total = [], 0
     for node in ast.walk(run):
         if isinstance(node, ast.Call):
